@@ -5,6 +5,11 @@ V = os.path.dirname(os.path.dirname(os.path.abspath(__file__)))
 props = [json.loads(l) for l in open(os.path.join(V, "properties.jsonl"))]
 TB = "Trusted: rustc's MIR construction and type checking (nightly 1.97, mir-opt-level=0), the checker's own abstract interpreter / rule code (validated against seeded mutants and benign edits), std collection semantics."
 CLAIMS = {
+ "C05": dict(
+   technique="visit-sequence extraction of the mutable type walker (inductive depth), path enumeration of resolve_type by abstract interpretation with the lookups as oracles, table extraction of the built-in tables",
+   text="Static, partial by design: (a) every type node at any depth reaches the resolver (walker sequence per configuration + induction on the recursive helper); (b) on every path through resolve_type an unresolved reference ends with exactly one classification or exactly one Error on its name, classified nodes are untouched; (c) built-in name tables, get_all completeness, lookup predicates, Item::get_kind and the shape of the project key map are tabulated against spec/builtins.json; (d) per path, the order import -> forward declaration -> built-in, the kind coming from the project map under the very key that matched, and built-in precedence over an import of the built-in. String-matching semantics of the searches (exact / suffix match, near misses) are NOT decided.",
+   note=TB + " The searches over imports and forward declarations are treated as oracles (their predicates quantify over arbitrary strings).",
+   design="DESIGN.md section 4, C05"),
  "C09": dict(
    technique="step-function extraction by abstract interpretation of the per-method closure, then exhaustive exploration of the finite abstract machine in product with a monitor",
    text="Static model checking of an extracted model: the fold step of check_methods is extracted from MIR as a function of six boolean abstractions (name seen, code present, code seen, first-with / first-without markers set, id map empty); every transition from every reachable abstract state is compared with a monitor transcribed from the statement (which Error with which range / back-reference, which bookkeeping updates, and nothing else). The invariant relating the id map to the marker is found by the exploration. walk_methods is shown to yield methods only.",
